@@ -18,7 +18,7 @@ use crate::vterm::{FaultMode, FaultPlan, VTerm};
 pub struct Fault {
     /// selects the index k of the failing terminal call among the calls of the fault-free run
     sel: u16,
-    /// 0 only k, 1 k and all later, 2 every second from k
+    /// 0 only k, 1 k and all later, 2 every second from k, 3 k and k+1
     mode: u8,
     kind: u8,
 }
@@ -26,17 +26,20 @@ pub struct Fault {
 fn plan(f: &Fault, total_calls: usize) -> FaultPlan {
     FaultPlan {
         at: pick(f.sel, total_calls + 1),
-        mode: match f.mode % 3 {
+        mode: match f.mode % 4 {
             0 => FaultMode::Once,
             1 => FaultMode::AllLater,
-            _ => FaultMode::EverySecond,
+            2 => FaultMode::EverySecond,
+            _ => FaultMode::Pair,
         },
         kind: [io::ErrorKind::BrokenPipe, io::ErrorKind::WouldBlock, io::ErrorKind::Other, io::ErrorKind::Interrupted, io::ErrorKind::TimedOut][f.kind as usize % 5],
+        // kinds 5.. are errors as the operating system reports them: EIO, EPIPE, ENOSPC, EAGAIN
+        os_code: [5, 32, 28, 11].get((f.kind as usize % 9).wrapping_sub(5)).copied(),
     }
 }
 
 fn fault_strategy() -> BoxedStrategy<Fault> {
-    (any::<u16>(), 0u8..3, 0u8..5).prop_map(|(sel, mode, kind)| Fault { sel, mode, kind }).boxed()
+    (any::<u16>(), 0u8..4, 0u8..9).prop_map(|(sel, mode, kind)| Fault { sel, mode, kind }).boxed()
 }
 
 type Getters = (u64, Option<u64>, String, String, bool);
@@ -121,6 +124,8 @@ fn run_single(c: &SingleCase) -> CaseResult {
     }
     let mut v = Verdict::default();
     v.nontrivial = !struck.is_empty();
+    v.label_if(v.nontrivial && p.os_code.is_some(), "error_from_the_operating_system");
+    v.label_if(struck.len() >= 2 && p.mode == FaultMode::Pair, "two_calls_in_a_row_failed");
     for s in struck {
         v.label(s);
     }
@@ -226,6 +231,8 @@ fn run_multi(c: &MultiFaultCase) -> CaseResult {
     }
     let mut v = Verdict::default();
     v.nontrivial = !faulty.struck.is_empty();
+    v.label_if(v.nontrivial && p.os_code.is_some(), "error_from_the_operating_system");
+    v.label_if(faulty.struck.len() >= 2 && p.mode == FaultMode::Pair, "two_calls_in_a_row_failed");
     for s in faulty.struck {
         v.label(s);
     }
@@ -233,7 +240,7 @@ fn run_multi(c: &MultiFaultCase) -> CaseResult {
 }
 
 fn decode_fault(u: &mut FuzzInput) -> Fault {
-    Fault { sel: u.u16(), mode: u.n(2) as u8, kind: u.n(4) as u8 }
+    Fault { sel: u.u16(), mode: u.n(3) as u8, kind: u.n(8) as u8 }
 }
 
 fn decode_c18_single(u: &mut FuzzInput) -> SingleCase {
@@ -289,7 +296,7 @@ fn run_long(c: &LongCase) -> CaseResult {
     };
     let (pb, sib) = (Guarded::new(pb), Guarded::new(sib));
     let kind = [io::ErrorKind::BrokenPipe, io::ErrorKind::WouldBlock, io::ErrorKind::Other, io::ErrorKind::Interrupted, io::ErrorKind::TimedOut][c.kind as usize % 5];
-    vt.set_fault(Some(FaultPlan { at: c.good_calls as usize, mode: FaultMode::AllLater, kind }));
+    vt.set_fault(Some(FaultPlan { at: c.good_calls as usize, mode: FaultMode::AllLater, kind, os_code: None }));
     let mut pos = 0u64;
     for r in 0..c.rounds {
         clock::advance(Duration::from_millis(c.step_ms as u64));
@@ -361,7 +368,7 @@ fn run_ticker_fault(c: &TickerFault) -> CaseResult {
     let kinds = [io::ErrorKind::BrokenPipe, io::ErrorKind::WouldBlock, io::ErrorKind::Other, io::ErrorKind::Interrupted, io::ErrorKind::TimedOut];
     // (one case in four: an outage - every call fails - that lasts for 300 ticks)
     let outage = c.mode % 4 == 3;
-    vt.set_fault(Some(FaultPlan { at, mode: if outage { FaultMode::AllLater } else if c.mode % 2 == 0 { FaultMode::Once } else { FaultMode::EverySecond }, kind: kinds[c.kind as usize % kinds.len()] }));
+    vt.set_fault(Some(FaultPlan { at, mode: if outage { FaultMode::AllLater } else if c.mode % 2 == 0 { FaultMode::Once } else { FaultMode::EverySecond }, kind: kinds[c.kind as usize % kinds.len()], os_code: if c.kind % 7 == 6 { Some(5) } else { None } }));
     let interval = Duration::from_millis(1 + c.interval_ms as u64 % 4);
     let r = catch(|| pb.enable_steady_tick(interval));
     r.map_err(|p| Fail::new("panic", format!("enable_steady_tick panicked: {p}")))?;
@@ -416,19 +423,19 @@ pub fn property() -> Property {
         id: "C18",
         level: "fault_enumeration",
         assumptions: &[
-            "faults are injected at the TermLike boundary: the k-th fallible terminal call (moves, writes, clear, flush) returns an io::Error (BrokenPipe / WouldBlock / Other / Interrupted / TimedOut), once, from then on, or every second call",
+            "faults are injected at the TermLike boundary: the k-th fallible terminal call (moves, writes, clear, flush) returns an io::Error (BrokenPipe / WouldBlock / Other / Interrupted / TimedOut, or one built from the raw OS codes EIO / EPIPE / ENOSPC / EAGAIN), once, from then on, every second call, or the k-th and the call after it",
             "k is drawn uniformly over the calls of the fault-free run of the same history (generated, not exhaustive; the thorough tier raises the count)",
             "logical state is compared with a fault-free twin run of the same history",
         ],
         parts: vec![
             Box::new(Gen::<SingleCase> {
                 name: "single",
-                rule: "C01 single-bar histories (incl. set_tab_width, suspend, println, finish*, drop) x fault plan (index k among the fault-free run's terminal calls, mode once/all-later/every-second, 5 error kinds); no op may unwind, getters must equal the fault-free twin after every op; non-trivial = the fault fired inside an op (labelled by the op it struck)",
+                rule: "C01 single-bar histories (incl. set_tab_width, suspend, println, finish*, drop) x fault plan (index k among the fault-free run's terminal calls, mode once/all-later/every-second/two-in-a-row, 5 error kinds and 4 raw OS errors); no op may unwind, getters must equal the fault-free twin after every op; non-trivial = the fault fired inside an op (labelled by the op it struck)",
                 strategy: |t| (c01::case_strategy(t), fault_strategy()).prop_map(|(bar, fault)| SingleCase { bar, fault }).boxed(),
                 cases: |t| t.pick(4_000, 800_000),
                 run: run_single,
                 signature: no_signature,
-                essential: &["set_tab_width", "suspend", "println", "finish", "draw", "drop", "recovered_and_redrawn"],
+                essential: &["set_tab_width", "suspend", "println", "finish", "draw", "drop", "recovered_and_redrawn", "error_from_the_operating_system", "two_calls_in_a_row_failed"],
                 workers: w,
                 decode: Some(decode_c18_single),
             }),
@@ -481,7 +488,7 @@ pub fn property() -> Property {
                 cases: |t| t.pick(3_000, 600_000),
                 run: run_multi,
                 signature: no_signature,
-                essential: &["set_tab_width", "suspend", "println", "clear", "finish", "draw", "drop", "set_draw_target"],
+                essential: &["set_tab_width", "suspend", "println", "clear", "finish", "draw", "drop", "set_draw_target", "error_from_the_operating_system", "two_calls_in_a_row_failed"],
                 workers: w,
                 decode: Some(decode_c18_multi),
             }),
